@@ -45,6 +45,8 @@ type Chain struct {
 	db     dbm.DB
 	// restarted: InitChain ran on a fresh application and its first block has not begun yet
 	restarted bool
+	// LastExport: the application state the last RestartInit exported (raw genesis JSON)
+	LastExport json.RawMessage
 }
 
 // GenesisMutator lets a profile adjust the default genesis (params, seeded records).
@@ -348,6 +350,7 @@ func (c *Chain) RestartInit() (errText string) {
 	if exp.Height != c.H+1 {
 		return fmt.Sprintf("export height %d, expected %d", exp.Height, c.H+1)
 	}
+	c.LastExport = exp.AppState
 	home, _ := os.MkdirTemp("", "verifharness")
 	ndb := dbm.NewMemDB()
 	a := app.NewJackalApp(log.NewNopLogger(), ndb, nil, true, map[int64]bool{}, home, 0, app.MakeEncodingConfig(), wasm.EnableAllProposals, app.EmptyBaseAppOptions{}, nil)
